@@ -205,5 +205,15 @@ Proof.
     intros x0 s0 Hin; unfold clear_subs in *; use_in; split_upd; wsimp; sat_in; sat_nat; rew_all; simp_hyps;
     try fin.
   all: rewrite ?upd_same in *; wsimp; try fin.
+Qed.
+
+Lemma d_pend_noact_step w e w' :
+  invA w -> invC0 w -> w_straddle w' = false -> w_substraddle w' = false -> invD w -> wstep w e = Some w' ->
+  forall i s, In (i, s) (w_pend w') -> no_act w' s.
+Proof.
+  intros IA IC Hs1 Hs2 D H. start IA IC D H e; flags Hs1 Hs2;
+    intros i0 s0 Hin x0 Hact; unfold clear_subs in *; use_in; split_upd; wsimp; sat_in; sat_nat; rew_all; simp_hyps;
+    try fin.
+  all: rewrite ?upd_same in *; wsimp; try fin.
   all: idtac "left". Show.
 Qed.
